@@ -19,7 +19,9 @@
        result, and a timer may only disappear once the write has its outcome (TIMEOUT);
      * nothing is ever addressed to a peer whose connection was removed, and none of its
        bookkeeping entries survives the removal (CLEANUP; this is the approval clause of C10);
-     * the function data is the value of the write applied last (DATA).
+     * the function data is the value of the write applied last (DATA);
+     * every call into the stack returns (STUCK): an inbound write, a verdict, a timer body or the
+       removal of a connection that blocks for ever leaves writes without their outcome.
    "Independently of other writes" is built in: every clause is evaluated per write, from
    that write's own verdicts and timeout only. *)
 From Verif Require Import Base.Prelude Model.Approval.
@@ -33,6 +35,8 @@ Definition CL_TIMEOUT : Z := 5.        (* the timeout did not produce the error 
 Definition CL_CLEANUP : Z := 6.        (* output for, or bookkeeping of, a removed connection *)
 Definition CL_DATA : Z := 7.           (* the data is not the value of the write applied last *)
 Definition CL_SHAPE : Z := 8.          (* observation of the wrong shape for the operation *)
+Definition CL_STUCK : Z := 9.          (* a call into the stack (write, verdict, timer body, cleanup) never returned:
+                                          the writes it blocks cannot get their outcome *)
 
 Inductive phase := PRun | PExp | PFired.
 Definition is_prun (ph : phase) : bool := match ph with PRun => true | _ => false end.
@@ -68,6 +72,7 @@ Definition obs_eqb (a b : obs) : bool :=
   | PendingEntry x y, PendingEntry x' y' => N.eqb x x' && N.eqb y y'
   | DataIs x y, DataIs x' y' => N.eqb x x' && N.eqb y y'
   | Sent x y, Sent x' y' => N.eqb x x' && N.eqb y y'
+  | Stuck x, Stuck x' => N.eqb x x'
   | _, _ => false
   end.
 
@@ -90,6 +95,13 @@ Definition to_gone (d : disc) (out : list obs) : bool :=
 
 Definition has_drift (out : list obs) : bool :=
   existsb (fun o => match o with Drift => true | _ => false end) out.
+
+Definition has_stuck (out : list obs) : bool :=
+  existsb (fun o => match o with Stuck _ => true | _ => false end) out.
+
+(* observations that are wrong whatever the operation *)
+Definition flags (out : list obs) : verdict :=
+  (if has_drift out then [CL_DATA] else []) ++ (if has_stuck out then [CL_STUCK] else []).
 
 Definition skipped_only (out : list obs) : verdict :=
   match out with [Skipped] => [] | _ => [CL_SHAPE] end.
@@ -223,7 +235,7 @@ Definition mon (m : mst) (o : op) (out : list obs) : mst * verdict :=
   if negb (d_ok (m_d m) o) then (m, skipped_only out) else
   let d := d_next (m_d m) o in
   let '(m1, v) := mon_op m d o out in
-  (m1, (if to_gone d out then [CL_CLEANUP] else []) ++ (if has_drift out then [CL_DATA] else []) ++ v).
+  (m1, (if to_gone d out then [CL_CLEANUP] else []) ++ flags out ++ v).
 
 (* nothing is excused: the property holds in full of the repaired code *)
 Definition sst := unit.
